@@ -424,3 +424,4 @@ PROP = Prop(
                  'names are mapped to rows in the documented order nodal, facet, edge, interior'],
     subs=[Sub('lookup', body, strategy=case, quick=1500, thorough=25000)],
     design_ref='DESIGN.md section 6, C07')
+PROP.rule += ('. Added in round 2: after a query by tag name another mesh is derived that redefines the same name (the query on the older mesh must not change); complement_dofs on FacetBasis and on CellBasis(elements=subset) must be the complement in range(N).')
